@@ -29,12 +29,17 @@ COMMANDS = (["assign", "break", "continue", "clear", "execute", "goto", "help", 
 ARGS = ["", "1", "2", "R1", "abc", "1 2", ".", "*", "f0", "l1", "s1", "d0", "N", ":d", ":d R1", "9999", "-1", "@", "(",
         "0x", "R1 R2", "R1, R2", "@R1", "pc", "<string>:3", "x:1", ":", "5:5", "ADD(R1,R2,R3)", "BR(l1)", "SET(R1", "c",
         "cb z", "carry-block", "stack", "symbols", "all", "next", "R99", "1/0", "65536", "-32769", "0x10", "ffff",
-        "LABEL(q)", "INTEGER(1)", "#", "\"", "'", "R1 = 2", "= 3", "stack extra"]
+        "LABEL(q)", "INTEGER(1)", "#", "\"", "'", "R1 = 2", "= 3", "stack extra",
+        # every kind of operation as the argument of asm / execute / doc (seed C18h: `asm print_reg(R1)` ended the session)
+        "print_reg(R1)", "print(\"x\")", "println(\"x\")", "__eval(\"1\")", "INTEGER(1) LP_STRING(\"ab\")", "DSKIP(3)", "SWI(1)",
+        "OPCODE(0x20CD)", "OPCODE(0)", "SET(R1, 5) print_reg(R1)", "NOP() HALT()", "CONSTANT(K, 3) SET(R1, K)", "DLABEL(d) INTEGER(d)"]
 
 
 def wild_line(rng, info):
     k = rng.random()
     if k < 0.35:
+        if rng.random() < 0.15:
+            return rng.choice(["asm", "execute", "doc", "e", "as"]) + " " + rng.choice(ARGS[-13:])
         return rng.choice(COMMANDS) + " " + rng.choice(ARGS)
     if k < 0.5:
         return rng.choice(dc.GARBAGE)
@@ -135,6 +140,9 @@ def finished_counts_oracle():
         deep = ["print " + "-" * 3000 + "1", "print " + "(" * 2500 + "1" + ")" * 2500, "print " + "1+" * 3000 + "1",
                 "print " + "@" * 3000 + "1", "R1 = " + "-" * 3000 + "1", "@" + "(" * 2500 + "1" + ")" * 2500 + " = 1",
                 'execute __eval("1/0")', 'execute __eval("nosuch")  SET(R2, 3)', "print R1, R2", "next"]
+        # ... and the undo history still matches what was saved before each of them (seed C14h recorded the command's
+        # name only after the handler had returned, so a failing command left the two stacks out of step)
+        deep += ["undo"] * 8
         for cmd in deep:
             r = rs.command(cmd, budget=20.0)
             if r["exc"]:
